@@ -54,6 +54,7 @@ ResetTo(k, o) ==
     /\ unitCache' = [u \in UnitIds |-> [sorted |-> "nil", re |-> "nil", names |-> "nil"]]
     /\ table' = [r \in Runs |-> "absent"]
     /\ initCount' = [r \in Runs |-> 0]
+    /\ scratch' = {}
     /\ mutex' = [x \in DOMAIN mutex |-> 0]
     /\ descr' = Describe([kind |-> k, origin |-> o])
     /\ argmem' = [g \in G |-> Empty]
@@ -74,6 +75,7 @@ TInit ==
     /\ unitCache = [u \in UnitIds |-> [sorted |-> "nil", re |-> "nil", names |-> "nil"]]
     /\ table = [r \in Runs |-> "absent"]
     /\ initCount = [r \in Runs |-> 0]
+    /\ scratch = {}
     /\ mutex = [x \in {"step", "unit", "root", "inner"} |-> 0]
     /\ descr = Describe(inst)
     /\ argmem = [g \in G |-> Empty]
@@ -96,7 +98,7 @@ TStart ==
           /\ loc' = [loc EXCEPT ![Me] = NoLoc]
           /\ argmem' = [argmem EXCEPT ![Me] = c.arg.m]
           /\ Goto(Me, Entry(c))
-    /\ UNCHANGED <<inst, phase, link, defaultsCache, cell, unitCache, table, initCount, mutex, descr, ncalls, hist,
+    /\ UNCHANGED <<inst, phase, link, defaultsCache, cell, unitCache, table, initCount, scratch, mutex, descr, ncalls, hist,
                    l, seen>>
 
 \* the memory-access steps of the call
